@@ -57,9 +57,12 @@ pub enum Ty {
     Any,
     Pct,
     Up,
+    /// words separated by single spaces: an expression with a literal space (header values only: a space in a
+    /// path is percent-encoded by request sanitising, in a host it is not legal)
+    Phrase,
 }
 
-pub const TYPES: &[Ty] = &[Ty::Int, Ty::Low, Ty::Enum, Ty::Uuid, Ty::Date, Ty::Any, Ty::Pct, Ty::Up];
+pub const TYPES: &[Ty] = &[Ty::Int, Ty::Low, Ty::Enum, Ty::Uuid, Ty::Date, Ty::Any, Ty::Pct, Ty::Up, Ty::Phrase];
 
 impl Ty {
     pub fn expr(&self) -> &'static str {
@@ -72,6 +75,7 @@ impl Ty {
             Ty::Any => ".+?",
             Ty::Pct => "([\\p{Ll}0-9]|%[0-9A-Z]{2})+?",
             Ty::Up => "([A-Z]+?)",
+            Ty::Phrase => "(smart tv|[a-z]+( [a-z]+)*)",
         }
     }
 
@@ -106,6 +110,7 @@ impl Ty {
                 }
             }
             Ty::Up => same(*rng.pick(&["A", "XYZ", "HELLO"])),
+            Ty::Phrase => same(*rng.pick(&["smart tv", "a b c", "x", "hello world"])),
         }
     }
 
@@ -120,6 +125,7 @@ impl Ty {
             Ty::Any => String::new(),
             Ty::Pct => "ab!c".to_string(),
             Ty::Up => "AB!C".to_string(),
+            Ty::Phrase => "smart! tv".to_string(),
         }
     }
 }
@@ -302,6 +308,9 @@ fn random_case_unchecked(rng: &mut Rng) -> Case {
         };
         // host and header values: keep types whose accepted strings are valid there
         if place == 2 && matches!(ty, Ty::Any | Ty::Pct | Ty::Date | Ty::Up) {
+            ty = Ty::Low;
+        }
+        if place != 3 && ty == Ty::Phrase {
             ty = Ty::Low;
         }
         let ascii = ty != Ty::Pct;
